@@ -108,5 +108,11 @@ mod wasm;
 #[doc(hidden)]
 pub mod verif_hooks;
 
+#[cfg(all(fast_qr_verif, feature = "svg", not(target_arch = "wasm32")))]
+#[doc(hidden)]
+#[allow(missing_docs)]
+#[path = "wasm.rs"]
+pub mod verif_wasm_host;
+
 #[cfg(target_arch = "wasm32")]
 pub use wasm::*;
